@@ -1231,7 +1231,11 @@ fn check_snapshots(w: &Workload, snaps: &[fsx::Snap], txinfo: &[TxInfo], rep: &m
         if use_git && s.torn.is_none() && s.k % 5 == 0 {
             rep.probe("git-read-crash-state");
             if let Err(e) = git(&s.dir, &["for-each-ref"]) {
-                rep.violate("C20", format!("refstore C20 git-cannot-read {where_}"), format!("{} crash before mutation {}: {e}", tx.phase, s.k));
+                // one root cause, whatever the crash point: the store's own clean-up removed the empty `refs/` directory
+                // earlier (C16's known finding); a process that dies before something re-creates it leaves a directory git
+                // does not accept as a repository
+                let sig = if e.contains("not a git repository") && !s.dir.join("refs").is_dir() { "refstore C20 git-cannot-read refs-directory-missing".to_string() } else { format!("refstore C20 git-cannot-read {where_}") };
+                rep.violate("C20", sig, format!("{} crash before mutation {} ({where_}): {e}", tx.phase, s.k));
                 return;
             }
         }
